@@ -404,7 +404,7 @@ def run(ctx):
         fx = code_is_fixed()
         cases = [set_fix(c, fx) for c in corpus() + gen_cases(ctx, ctx.tier)]
         ctx.coverage["model_variant"] = "repaired detach/join (4ff1f32)" if fx else "pre-fix detach/join"
-        ok = core.correspond(ctx, "join", "join", exe, cases, monitor, known())
+        ok = core.correspond(ctx, "join", "join", exe, cases, monitor, known(), aux=True)
         st = ctx.stats["join"]
         ctx.coverage.update({"traces_validated_against_impl": st["cases"] - st["differ"],
                              "evaluations": st["cases"], "distinct_nontrivial": st["nontrivial"],
@@ -488,8 +488,8 @@ def replay(ctx, payload):
     mod = core.model_run("join", [c])[0]
     why = monitor(c, core.parse_trace(impl), impl)
     print("case:  %s\nimpl:  %s\nmodel: %s\nmonitor: %s\nlock-step: %s" %
-          (c, impl, mod, why or "ok", "identical" if impl == mod else "DIFFER"))
-    return 1 if (why or impl != mod) else 0
+          (c, impl, mod, why or "ok", "identical" if core.strip_aux(impl) == mod else "DIFFER"))
+    return 1 if (why or core.strip_aux(impl) != mod) else 0
 
 
 TRUSTED = [
